@@ -12,7 +12,6 @@ import Matreex.Model.Mul
 import Matreex.Model.Iter
 import Driver.IterSys
 import Matreex.Model.Convert
-import Matreex.Gen.Macros
 import Matreex.Model.Eq
 import Matreex.Model.Index
 import Matreex.Model.History
@@ -234,6 +233,10 @@ def stepHist (w : World) (ws : List String) : Option (World × String) :=
     | .error e => pure (w, faultStr e)
     | .ok (.error e, _) => pure (w, "err " ++ e.name ++ " | " ++ stStr m)
     | .ok (.ok (), m') => pure (w.set r (some m'), "ok | " ++ stStr m')
+  | ["bump", r, i, j] => do
+    -- `let e = m.get_mut((i, j))?; *e = h(*e)` (`History.Op.updAt`)
+    let r ← r.toNat?; let i ← i.toNat?; let j ← j.toNat?
+    pure (inplaceRes w r (·.updAt i j fun x => "h(" ++ x ++ ")"))
   | ["display", r] => do
     let r ← r.toNat?
     let m ← w.get r
@@ -297,29 +300,27 @@ def stepHist (w : World) (ws : List String) : Option (World × String) :=
     | .ok (.error e) => pure (w, "err " ++ e.name)
     | .ok (.ok m) => pure (w, s!"ok {m.nrows}x{m.ncols} calls={m.data.size}")
   | ["macro", dst, name, arm, a, b] => do
-    -- the macro arm's expansion is looked up in the table re-extracted from src/macros.rs
+    -- the meaning the documentation gives to each macro form (since the fourth session not looked up in the T1 table any more:
+    -- the tie between `src/macros.rs` and this meaning is `C19.macros_are_the_source`, T19, proved)
     let dst ← dst.toNat?; let a ← a.toNat?; let b ← b.toNat?
-    let arm := if arm = "fill" then "[[elem; ncols]; nrows]" else if arm = "rep" then "[[elems..]; nrows]"
-      else if arm = "rows" then "[rows..]" else if arm = "rep1" then "[elem; n]"
-      else if arm = "list" then "[elems..]" else arm
-    let row ← Gen.macroArms.find? fun r => r.macroName == name && r.pattern == arm
     let seq := fun (n : Nat) => (List.range n).map fun k => toString (k + 1)
+    let rep := (List.range a).map (fun k => if k + 1 < a then w.cloneFn "e" else "e")
     let m : Option (Matrix String) :=
-      if row.expandsTo = "Matrix::new" then some ⟨.rowMajor, ⟨0, 0⟩, #[]⟩
-      else if row.expandsTo = "Matrix::with_value" then
+      if name = "matrix" ∧ arm = "empty" then some ⟨.rowMajor, ⟨0, 0⟩, #[]⟩
+      else if name = "matrix" ∧ arm = "fill" then
         -- matrix![[e; b]; a]
         (match Matrix.withValue w.es ⟨a, b⟩ "e" with
          | .ok (.ok m) => some { m with data := m.data.mapIdx fun k x => if k + 1 < m.data.size then w.cloneFn x else x }
          | _ => none)
-      else if row.expandsTo = "Matrix::from(vec![[..]; nrows])" then
+      else if name = "matrix" ∧ arm = "rep" then
         -- matrix![[1, …, b]; a]: the row array is cloned a-1 times, the original is the last row
         some (Matrix.fromArrays b ((List.range a).map fun r => (seq b).map fun x => if r + 1 < a then w.cloneFn x else x))
-      else if row.expandsTo = "Matrix::from([rows..])" then
+      else if name = "matrix" ∧ arm = "rows" then
         some (Matrix.fromArrays b ((List.range a).map fun r => (List.range b).map fun k => toString (r * b + k + 1)))
-      else if row.expandsTo = "Matrix::from_row" then
-        some (Matrix.fromRow (if arm = "[elem; n]" then (List.range a).map (fun k => if k + 1 < a then w.cloneFn "e" else "e") else seq a))
-      else if row.expandsTo = "Matrix::from_col" then
-        some (Matrix.fromCol (if arm = "[elem; n]" then (List.range a).map (fun k => if k + 1 < a then w.cloneFn "e" else "e") else seq a))
+      else if name = "row_vec" ∧ (arm = "empty" ∨ arm = "rep1" ∨ arm = "list") then
+        some (Matrix.fromRow (if arm = "rep1" then rep else seq a))
+      else if name = "col_vec" ∧ (arm = "empty" ∨ arm = "rep1" ∨ arm = "list") then
+        some (Matrix.fromCol (if arm = "rep1" then rep else seq a))
       else none
     match m with
     | some m => pure (w.set dst (some m), "ok | " ++ stStr m)
